@@ -117,6 +117,12 @@ CHECKS = {
         "Trusted: fingerprint walker; materialization payload slots excluded (owned by C07/C10); actions address the leaves and the two newest members.",
         "DESIGN.md 3 C09",
     ),
+    "C10": (
+        "exhaustive enumeration of attach/execute/process histories over trees sharing a materialization; slot and counter invariants after every step",
+        "All histories of length 3-5 over attach_payload (every node kind, two distinct payload objects), iteration execute and Processor.process on three trees sharing one materialization, in four scenarios (iteration-only, SQL source, SQL materialization below a transfer, SQL materialization above a transfer): payload slots are write-once, non-markers and filled markers reject attachment with TypeError and unchanged state, the shared upstream is evaluated at most once (instrumented leaf, hook log), and every evaluation returns the reference rows.",
+        "Trusted: RealProcessor harness, instrumented payload subclasses; attached payloads carry the correct rows.",
+        "DESIGN.md 3 C10",
+    ),
 }
 
 NOT_YET = "check not built yet in this revision (planned, see DESIGN.md section 3)"
